@@ -1,4 +1,5 @@
 import ArgMapper.Driver.GraphD
+import ArgMapper.Driver.SigD
 open ArgMapper.Driver
 
 /-- model configuration flags passed on the command line (`key=value`) -/
@@ -13,6 +14,10 @@ def dispatch (cfg : Cfg) (b : Block) : String :=
   | "kahn" => (runKahn b).line b.kind b.id "C20"
   | "scc" => (runScc b).line b.kind b.id "C20"
   | "topo" => (runTopo b).line b.kind b.id "C20"
+  | "sig" => (runSig b).line b.kind b.id "C14"
+  | "vset" => (runVset b).line b.kind b.id "C15"
+  | "opts" => (runOpts b).line b.kind b.id "C16"
+  | "result" => (runResult b).line b.kind b.id "C17"
   | k => s!"res {k} {b.id} conform=DIVERGE:unknown_kind prop=na"
 
 partial def readAll (h : IO.FS.Stream) (acc : Array String) : IO (Array String) := do
